@@ -1,0 +1,8 @@
+//go:build !verif
+
+package consul
+
+import "net/http"
+
+// verifHTTPClient returns the HTTP client the Consul API client uses.
+func verifHTTPClient(hostname string) *http.Client { return http.DefaultClient }
